@@ -74,7 +74,7 @@ def _batch_rule(args, dims, *, name, out_avals, batch, **params):
     moved = []
     flags = []
     for a, d in zip(args, dims):
-        if d is batching.not_mapped:
+        if d is None:
             moved.append(a)
             flags.append(False)
         else:
@@ -118,7 +118,14 @@ def _opaque_eval(ctx, eqn, *ins):
 
     def rec(level, ops):
         if level < 0:
-            return base(ctx, prm, *ops)
+            key = _memo_key(name, prm, ops)
+            hit = _MEMO.get(key) if key is not None else None
+            if hit is not None and (not hit[0] or [b.key() for b in hit[0]] == [b.key() for b in ctx.path[: len(hit[0])]]):
+                return hit[1]
+            outs = base(ctx, prm, *ops)
+            if key is not None:
+                _MEMO[key] = (list(ctx.path), outs)
+            return outs
         flags = batch[level]
         size = None
         for o, f in zip(ops, flags):
@@ -146,6 +153,37 @@ def _opaque_eval(ctx, eqn, *ins):
 
 interp.OPAQUE["vc_opaque"] = _opaque_eval
 
+_MEMO: dict = {}
+
+
+def _operand_key(o):
+    if interp.is_obj(o):
+        return (o.shape, tuple(x.p.key() if isinstance(x, V) else x.key() for x in o.reshape(-1)))
+    a = np.asarray(o)
+    return (a.shape, a.dtype.str, a.tobytes())
+
+
+def _memo_key(name, prm, ops):
+    """Opaque calls are deterministic functions of their arguments: same arguments, same symbols."""
+    st = prm.get("static")
+    if isinstance(st, Static):
+        info = st.value
+        if not isinstance(info, dict) or "contract" not in info:
+            return None
+        statics = tuple(
+            (i, l if isinstance(l, (int, float, str, bool, type(None))) else id(l))
+            for i, l in enumerate(info["leaves"])
+            if i not in info["arr_idx"]
+        )
+        skey = (info["contract"].name, str(info["treedef"]), statics)
+    else:
+        try:
+            hash(st)
+            skey = st
+        except TypeError:
+            return None
+    return (name, skey, tuple(_operand_key(o) for o in ops))
+
 
 # ---------------------------------------------------------------------------------------
 # records for numeric replay of opaque calls
@@ -157,6 +195,7 @@ CALL_LOG: list = []  # {name, native: callable(*np arrays)->list of np arrays, o
 def reset():
     CALL_LOG.clear()
     _UF_CACHE.clear()
+    _MEMO.clear()
 
 
 def fresh_array(shape, name, *, mask=None, kind="kernel", **flags):
